@@ -5,7 +5,7 @@
    reference server (Spec/Modbus.v) on a case. Depends neither on the model of the code nor on
    generated tables, so the Spec can still be evaluated when those no longer compile. *)
 From Coq Require Import NArith List Bool Arith String Ascii.
-From Rodbus Require Import Base.Outcome Base.Show Base.ServerTypes Base.ServerRun Spec.Modbus.
+From Rodbus Require Import Base.Outcome Base.Show Base.ServerTypes Base.ServerRun Model.Retry Model.RtuServerLoop Spec.Modbus.
 Import ListNotations.
 Local Open Scope N_scope.
 
@@ -165,10 +165,19 @@ Definition run_spec (c : case) : string :=
 Definition ecase := (link * list (N * N) * list (N * pstate) * auth_cfg * list sevent)%type.
 Definition show_run_end {E} (she : E -> string) (e : run_end E) : string :=
   match e with
-  | ROpen => "open" | RBlocked _ => "blocked" | RShutdown => "Shutdown" | RError x => she x | RPanic => "PANIC"
+  | ROpen => "open" | RBlocked _ => "blocked" | RShutdown => "Shutdown" | RIo => "Io" | RReader => "ReadError" | RError x => she x | RPanic => "PANIC"
   end.
 Definition run_spec_ev (c : ecase) : string :=
   let '(l, m, hs, a, evs) := c in
   let '(ws, _, log, _, e) :=
-    run (E := unit) (fun u f => ok_result (ref_handle_frame prog l (auth_spec a) u f)) (mkunits m hs) 0 MIdle evs in
+    ServerRun.run (E := unit) (fun u f => ok_result (ref_handle_frame prog l (auth_spec a) u f)) (mkunits m hs) 0 MIdle evs in
   show_replies ws ++ "|" ++ show_log log ++ "|" ++ show_run_end (fun _ => "?") e.
+
+(* ---------------------------------------------------------------- the RTU server task loop *)
+Definition tcase := (list (N * N) * list (N * pstate) * (N * N) * list episode)%type.
+Definition show_task_end {E} (e : task_end E) : string := match e with TShutdown => "done" | _ => "live" end.
+Definition run_spec_task (c : tcase) : string :=
+  let '(m, hs, mm, eps) := c in
+  let '(ws, _, log, _, _, e) :=
+    rtu_task (E := unit) (fun u f => ok_result (ref_handle_frame prog LRtu NoAuth u f)) (mkunits m hs) 0 (create (fst mm) (snd mm)) eps in
+  show_replies (List.concat ws) ++ "|" ++ show_log log ++ "|" ++ show_task_end e.
